@@ -412,6 +412,8 @@ pub fn tree_tokens(tree: &Tree) -> Vec<Vec<u8>> {
                 }
             } else if !name.is_empty() {
                 let f = crate::model::mnemonic::response_form(name.as_bytes());
+                // (no short form: the full spelling)
+                let f = if f.first().map_or(true, |c| !c.is_ascii_alphabetic()) { name.as_bytes().to_vec() } else { f };
                 if !out.contains(&f) {
                     out.push(f);
                 }
